@@ -4,6 +4,9 @@ import (
 	"context"
 	"errors"
 
+	"github.com/aperturerobotics/util/ccontainer"
+	"github.com/aperturerobotics/util/refcount"
+
 	"github.com/aperturerobotics/util/zzverif/vsched"
 	"verifharness/eng"
 )
@@ -56,23 +59,25 @@ func init() {
 	}
 	eng.Register(&eng.Scenario{
 		Name: "refcount-wait", Props: []string{"C10", "C08"}, MustFinish: true, ObsNames: stdObs,
-		Doc:   "RefCount.Wait / Resolve holders (choice) against another reference user coming and going, an optional context change and a first value that may be invalidated by released(): the returned value is not released while the holder holds its reference unless invalidated; errors are returned as such",
+		Doc:   "RefCount.Wait / Resolve holders (choice) against another reference user coming and going, an optional context change or the cancellation of the holder's own context, and a first value that may be invalidated by released(): the returned value is not released while the holder holds its reference unless invalidated; errors are returned as such",
 		Quick: eng.Bounds{PB: 2, Delay: true}, Thorough: eng.Bounds{PB: 3, Delay: true},
 		Body: func() {
 			e := newRC2(bg, vsched.Choose(2) == 1, first([]int{mValue, mInvalidate, mError, mSlow}[vsched.Choose(4)]))
 			useResolve := vsched.Choose(2) == 1
-			ctxOp := vsched.Choose(2)
+			ctxOp := vsched.Choose(3)
+			hctx, hcancel := context.WithCancel(bg)
+			defer hcancel()
 			T("H", func() {
 				var v int
 				var rel func()
 				var err error
 				label("Wait")
 				if useResolve {
-					v, rel, err = e.rc.Resolve(bg)
+					v, rel, err = e.rc.Resolve(hctx)
 				} else {
 					var ref interface{ Release() }
 					var r2 = func() {}
-					vv, rr, ee := e.rc.Wait(bg)
+					vv, rr, ee := e.rc.Wait(hctx)
 					v, err = vv, ee
 					if ee == nil {
 						ref = rr
@@ -81,6 +86,12 @@ func init() {
 					rel = r2
 				}
 				label("")
+				if err == context.Canceled && vsched.Ctr(xCallerCxl) != 0 {
+					if v != 0 {
+						fail("C10.value-with-error", "Wait/Resolve returned value %d with error %v", v, err)
+					}
+					return
+				}
 				if err != nil {
 					if err != errResolve {
 						fail("C10.wrong-error", "Wait/Resolve returned %v", err)
@@ -100,6 +111,10 @@ func init() {
 			T("U1", func() { e.user(1, false, false) })
 			if ctxOp == 1 {
 				T("X", func() { e.setContext(context.WithValue(bg, ctxKey{}, 2)) })
+			}
+			if ctxOp == 2 {
+				// the holder's own context is cancelled at any moment (before, while or after it waits)
+				T("HC", func() { vsched.CtrSet(xCallerCxl, 1); hcancel() })
 			}
 			vsched.Settle()
 			e.finalRelease()
@@ -232,6 +247,204 @@ func init() {
 			keepRef.Release()
 			vsched.Settle()
 			e.finalRelease()
+		},
+	})
+
+	eng.Register(&eng.Scenario{
+		Name: "refcount-keep-invalidate", Props: []string{"C09", "C10", "C08"}, MustFinish: true, ObsNames: stdObs,
+		Doc:   "RefCount with keep-unreferenced: a value is resolved, the last reference is released (the value is kept), then while nothing is referenced the value is invalidated by released(), ClearContext;SetContext(fresh) or SetContext(fresh) (choice); a new consumer (AddRef, Wait or Access, choice) must get a value resolved afterwards, never the invalidated one, and the invalidated one is released exactly once",
+		Quick: eng.Bounds{PB: 2, Delay: true}, Thorough: eng.Bounds{PB: 3, Delay: true},
+		Body: func() {
+			e := newRC2(bg, true, func(int) int { return mValue })
+			how := vsched.Choose(3)
+			consumer := vsched.Choose(3)
+			r0 := e.rc.AddRef(refCb(0))
+			vsched.Settle() // value 101 resolved
+			r0.Release()
+			vsched.Settle() // kept although unreferenced
+			if vsched.Ctr(rcRel0+1) != 0 {
+				fail("C08.released-while-current", "keep-unreferenced is set but value 101 was released when the last reference was dropped")
+			}
+			switch how {
+			case 0:
+				if f, ok := vsched.GetCell(50).(func()); ok {
+					vsched.CtrSet(rcInv0+1, 1)
+					f()
+				}
+			case 1:
+				e.setContext(nil)
+				e.setContext(context.WithValue(bg, ctxKey{}, 2))
+			case 2:
+				e.setContext(context.WithValue(bg, ctxKey{}, 2))
+			}
+			vsched.Settle()
+			check := func(v int, who string) {
+				if v == valOf(1) {
+					fail("C10.stale-value", "%s obtained value %d although it had been invalidated (how=%d), with nothing in flight, before the call began", who, v, how)
+				}
+			}
+			switch consumer {
+			case 0:
+				ref := e.rc.AddRef(refCb(2))
+				vsched.CtrSet(rcRefHeld+2, 1)
+				vsched.CtrAdd(rcHeld, 1)
+				vsched.Settle()
+				e.quiescentOracle([]int{2})
+				if vsched.Ctr(rcLastRes+2) == 2 {
+					check(int(vsched.Ctr(rcLastVal+2)), "a reference added afterwards")
+				}
+				vsched.CtrAdd(rcHeld, -1)
+				vsched.CtrSet(rcRefHeld+2, 0)
+				ref.Release()
+			case 1:
+				v, ref, err := e.rc.Wait(bg)
+				if err != nil {
+					fail("C10.wrong-error", "Wait returned %v", err)
+					return
+				}
+				check(v, "Wait")
+				heldValueOracle(v, "right after Wait returned")
+				ref.Release()
+			case 2:
+				err := e.rc.Access(bg, func(cctx context.Context, v int) error {
+					check(v, "the Access callback")
+					return nil
+				})
+				if err != nil {
+					fail("C10.wrong-error", "Access returned %v", err)
+				}
+			}
+			vsched.Settle()
+			e.setContext(nil)
+			vsched.Settle()
+			e.finalRelease()
+		},
+	})
+	eng.Register(&eng.Scenario{
+		Name: "refcount-reentrant", Props: []string{"C09", "C08"}, MustFinish: true, ObsNames: stdObs,
+		Doc:   "RefCount used re-entrantly from code it runs with its mutex held: a reference callback rejects the first value by calling released() (choice: or the release function of the first value calls released() of its own call), while a second user comes and goes: nothing deadlocks, the rejected value is dropped and resolved afresh",
+		Quick: eng.Bounds{PB: 2, Delay: true}, Thorough: eng.Bounds{PB: 3, Delay: true},
+		Body: func() {
+			how := vsched.Choose(2)
+			e := newRC2(bg, false, func(int) int { return mValue })
+			cb := func(resolved bool, val int, err error) {
+				refCb(0)(resolved, val, err)
+				if how == 0 && resolved && val == valOf(1) {
+					if f, ok := vsched.GetCell(50).(func()); ok {
+						vsched.CtrSet(rcInv0+1, 1)
+						f() // reject the value from inside the callback
+					}
+				}
+			}
+			if how == 1 {
+				e.onRelease = func(i int) {
+					if f, ok := vsched.GetCell(49 + i).(func()); ok {
+						f() // a (pointless but harmless) released() from inside the release function
+					}
+				}
+			}
+			label("AddRef")
+			ref := e.rc.AddRef(cb)
+			label("")
+			vsched.CtrSet(rcRefHeld+0, 1)
+			vsched.CtrAdd(rcHeld, 1)
+			T("U1", func() { e.user(1, false, false) })
+			vsched.Settle()
+			e.quiescentOracle([]int{0})
+			vsched.CtrAdd(rcHeld, -1)
+			vsched.CtrSet(rcRefHeld+0, 0)
+			label("Release")
+			ref.Release()
+			label("")
+			vsched.Settle()
+			e.finalRelease()
+			e.setContext(nil)
+			vsched.Settle()
+			e.finalRelease()
+		},
+	})
+	eng.Register(&eng.Scenario{
+		Name: "refcount-zero-value", Props: []string{"C10", "C09"}, MustFinish: true, ObsNames: stdObs,
+		Doc:   "RefCount whose resolver legitimately resolves the zero value (0, nil): a ResolveWithReleased holder and an Access callback parked on that value; then (quiescence-gated) the value is invalidated by released() or SetContext(fresh) (choice) while the replacement resolver call does not return: the released callback fires exactly once and the Access callback's context is cancelled",
+		Quick: eng.Bounds{PB: 2, Delay: true}, Thorough: eng.Bounds{PB: 3, Delay: true},
+		Body: func() {
+			how := vsched.Choose(2)
+			target := ccontainer.NewCContainer[int](0)
+			var rc *refcount.RefCount[int]
+			rc = refcount.NewRefCount[int](bg, false, target, nil, func(rctx context.Context, released func()) (int, func(), error) {
+				i := int(vsched.CtrAdd(rcCalls, 1))
+				if i >= 8 {
+					fail("infra.too-many-resolves", "more than 8 resolver calls")
+					return 0, nil, errResolve
+				}
+				vsched.SetCell(49+i, released)
+				if vsched.Ctr(xHolding) != 0 {
+					<-rctx.Done() // the replacement call does not return
+					return 0, nil, context.Canceled
+				}
+				return 0, func() { vsched.CtrAdd(rcRel0+i, 1) }, nil
+			})
+			gI, gF := &vsched.Gate{}, &vsched.Gate{}
+			vsched.OnQuiescent(func() bool {
+				switch vsched.CtrAdd(xPhase, 1) {
+				case 1:
+					gI.Open()
+					return true
+				case 2:
+					gF.Open()
+					return true
+				}
+				return false
+			})
+			T("H", func() {
+				label("ResolveWithReleased")
+				v, rel, err := rc.ResolveWithReleased(bg, func() { vsched.CtrAdd(xRelCb, 1) })
+				label("")
+				if err != nil || v != 0 {
+					fail("C10.wrong-error", "ResolveWithReleased returned (%d,%v)", v, err)
+					return
+				}
+				vsched.CtrSet(xHolding, 1)
+				gF.Wait()
+				rel()
+			})
+			actx, acancel := context.WithCancel(bg)
+			defer acancel()
+			T("A", func() {
+				label("Access")
+				rc.Access(actx, func(cctx context.Context, v int) error {
+					if vsched.CtrAdd(xInvoc, 1) == 1 {
+						label("Access-callback")
+						<-cctx.Done()
+						label("Access")
+					}
+					return nil
+				})
+				label("")
+			})
+			T("I", func() {
+				gI.Wait()
+				if vsched.Ctr(xHolding) == 0 {
+					return
+				}
+				if f, ok := vsched.GetCell(50).(func()); ok && how == 0 {
+					f()
+				} else {
+					rc.SetContext(context.WithValue(bg, ctxKey{}, 2))
+				}
+			})
+			gF.Wait()
+			if vsched.Ctr(xHolding) != 0 {
+				if n := vsched.Ctr(xRelCb); n != 1 {
+					fail("C10.released-cb-count", "the zero value held through ResolveWithReleased was invalidated: released callback fired %d times by the next quiescent state, want exactly 1", n)
+				}
+				if vsched.CountParked("Access-callback") > 0 {
+					fail("C10.cb-not-cancelled", "Access callback still parked on the zero value after it was invalidated: its context was not cancelled")
+				}
+			}
+			acancel()
+			rc.ClearContext()
+			vsched.Settle()
 		},
 	})
 
